@@ -36,10 +36,10 @@ CLAIMS = {
 E2_NOTE = ("trusted: stateright 0.31 (bounded DFS with the depth in the state key; cross-checked against BFS counts on every C12 run); the harness's clock_gettime interposition (self-tested each run); the reference tracker; exact haversine; "
            "depth-bounded (no fixpoint) plus periodic (lasso) histories: every word of period <= 2-3 repeated to 1200-3000 events; oracles are evaluated on every generated state inside next_state (stateright itself skips the deepest level)")
 for _pid, _ref, _txt in [
-  ("C12", "3 C12", "all histories up to depth 4 (quick) / 5 (thorough) over a 37-letter frame alphabet (2-3 addresses x payload classes, DF18 with foreign PI, eight non-ES formats): key set, Added, message counts, non-ES no-ops, record isolation checked on every reachable state; an expiry model (accounting letters x prune, one second per event) for 'the tracked set shrinks only through expiry'; a model over all 32 type codes from address 000000 and a1; the receiver at 0N 0E; 1300 simultaneous addresses"),
+  ("C12", "3 C12", "all histories up to depth 4 (quick) / 5 (thorough) over a 37-letter frame alphabet (2-3 addresses x payload classes, DF18 with foreign PI, eight non-ES formats): key set, Added, message counts, non-ES no-ops, record isolation checked on every reachable state; an expiry model (accounting letters x prune, one second per event) for 'the tracked set shrinks only through expiry', explored a second time path by path (history in the state key: 177 156 paths of length <= 5, thorough <= 6) so that state the public API cannot show cannot hide behind a merge; a model over all 32 type codes from address 000000 and a1; the receiver at 0N 0E; 1300 simultaneous addresses"),
   ("C13", "3 C13", "all histories up to depth 4-6 (7 quick / 9 thorough on a single-aircraft sub-alphabet) of even/odd reports from a flight, range-boundary, jump-boundary (polar NL=1), garbage, second-aircraft and receiver-move letters, several receivers/ranges, 1 s and 100 s per event, polar models on the +-90 deg zone latitudes, every carrier (DF17 / DF18 x barometric / GNSS height), pairs 20 m on either side of every NL transition, longitude rounding ties: published position, clearing, distance, the pairing itself against the independent reference decoder"),
   ("C14", "3 C14", "same state spaces plus identification/velocity letters: latest-wins attributes, details/all_position/Display views, distance-iff-position, track = superseded publications in order (periodic histories with > 1100 required entries); altitude codes incl. 0 ft; an aircraft at exactly 0N 0E; a velocity sub-model whose letters are exactly one derived attribute apart (vertical rate only / track only / speed only)"),
-  ("C15", "3 C15", "all interleavings up to depth 6 (quick) / 9 (thorough) of frames (identification, velocity, positions, unhandled types, DF18, non-ES), waits {1 ns, 0.4T, 0.6T, T-1ns, T} and prune(T), T in {0, 1, 10} and prune(u64::MAX): exact expiry set, untouched survivors, fresh record on re-appearance"),
+  ("C15", "3 C15", "all interleavings up to depth 6 (quick) / 9 (thorough) of frames (identification, velocity, positions, unhandled types, DF18, non-ES), waits {1 ns, 0.4T, 0.6T, T-1ns, T} and prune(T), T in {0, 1, 10} and prune(u64::MAX): exact expiry set, untouched survivors, fresh record on re-appearance; thresholds 3600 / 5 / 1 / 0 mixed in one alphabet, path by path to depth 6 (7)"),
 ]:
     CLAIMS[_pid] = dict(cat="model_checking", engine="E2-tracker",
         tech="explicit-state model checking (stateright bounded DFS, depth in the state key) of the real Airplanes::action/prune, one event per transition under a virtual clock, against a reference tracker; every transition executes the implementation; plus exhaustive enumeration of periodic histories (all words up to period 2-3, repeated to 1200-3000 events)",
